@@ -33,6 +33,7 @@ func init() {
 			ruleUnitEvaluators(r)
 			ruleSingleGrouping(r)
 			ruleNoStdUnquote(r)
+			ruleIdentPredicates(r) // which names the parser accepts as labels (regexp capture names, label_format targets)
 		},
 	})
 }
